@@ -162,3 +162,33 @@ Proof.
   - apply (rebuild_eq_fresh [0%N] [1%N] s w ex_view2 Hm (proj2 ex_okv)).
     vm_compute in E. inversion E. subst. cbv. auto.
 Qed.
+
+(** a keyed list inside a tuple, updated with a move, a removal-free addition and a reorder:
+    the hypotheses of the theorem hold and it applies *)
+Definition ex_keyed1 : view :=
+  VTuple false [VText 0 [60%N]; VKeyed [(1%N, VText 0 [97%N]); (2%N, VEl 0 {| va_id := None; va_hidden := false;
+     va_class := [120%N]; va_on := false; va_color := [114%N] |} (VText 0 [98%N]))]].
+Definition ex_keyed2 : view :=
+  VTuple false [VText 0 [62%N]; VKeyed [(2%N, VEl 0 {| va_id := None; va_hidden := false;
+     va_class := [120%N]; va_on := false; va_color := [114%N] |} (VText 0 [98%N])); (3%N, VUnit); (1%N, VText 0 [97%N])]].
+
+Example ex_keyed_rebuild :
+  let '(s, w) := render_fresh [0%N] [1%N] ex_keyed1 2 in
+  let '(s', w') := rebuild_any ex_keyed2 s w in
+  mounted [0%N] [1%N] s' w' /\ cs s' = cv ex_keyed2.
+Proof.
+  assert (okv ex_keyed1) as Hok1.
+  { unfold ex_keyed1. apply okv_tuple. split; [discriminate|]. cbn [all_okv]. split; [exact I|]. split; [|exact I].
+    apply okv_keyed. split; [repeat constructor; simpl; intuition discriminate|]. simpl. auto. }
+  assert (okv ex_keyed2) as Hok2.
+  { unfold ex_keyed2. apply okv_tuple. split; [discriminate|]. cbn [all_okv]. split; [exact I|]. split; [|exact I].
+    apply okv_keyed. split; [repeat constructor; simpl; intuition discriminate|]. simpl. auto. }
+  pose proof (render_fresh_ok [0%N] [1%N] ex_keyed1 2 Hok1) as H.
+  destruct (render_fresh [0%N] [1%N] ex_keyed1 2) as [s w] eqn:E. destruct H as [Hm Hc].
+  - repeat constructor; simpl; intuition discriminate.
+  - simpl. intros x [<-|[<-|[]]]; reflexivity.
+  - apply (rebuild_eq_fresh [0%N] [1%N] s w ex_keyed2 Hm Hok2).
+    vm_compute in E. inversion E. subst. unfold ex_keyed2.
+    cbn. split; [exact I|]. split; [|exact I].
+    intros kv r [<-|[<-|[<-|[]]]] [<-|[<-|[]]] Ek; cbn in Ek; try discriminate; reflexivity.
+Qed.
